@@ -55,6 +55,7 @@ type Knobs struct {
 	LightAudit    bool // C15: per-step audit = structural checks only (full audit every 10th)
 	VersionWalk   bool // C15: independent version + table content walkers
 	ForceValueSep bool
+	RatchetHeavy  bool
 }
 
 // Config is the drawn DB configuration; recorded in replays.
@@ -269,6 +270,198 @@ type batchObj struct {
 	id      int
 }
 
+// UnitHook observes the life cycle of write units; used by the crash engine.
+// Issue is called before Pebble is invoked with a function that applies the
+// unit to a model state; Ack after the call returned successfully; Durable
+// when everything acknowledged so far is durable (Flush / Close returned).
+type UnitHook interface {
+	Issue(desc string, kind string, apply func(st *model.State), durableOnAck bool) // kind: "batch" | "ingest" | "excise"
+	Ack()
+	Durable(what string)
+}
+
+func (r *Run) issue(desc string, durable bool, apply func(st *model.State)) {
+	r.issueKind(desc, "batch", durable, apply)
+}
+func (r *Run) issueKind(desc, kind string, durable bool, apply func(st *model.State)) {
+	if r.Hook != nil {
+		r.Hook.Issue(desc, kind, apply, durable)
+	}
+}
+func (r *Run) ack() {
+	if r.Hook != nil {
+		r.Hook.Ack()
+	}
+}
+func (r *Run) durable(what string) {
+	if r.Hook != nil {
+		r.Hook.Durable(what)
+	}
+}
+
+// syncDurable reports whether a commit with these write options is durable
+// when acknowledged.
+func (r *Run) syncDurable(wo *pebble.WriteOptions) bool { return wo != nil && wo.Sync && !r.Cfg.DisableWAL }
+
+func batchApply(ops []model.Op) func(st *model.State) {
+	cp := append([]model.Op(nil), ops...)
+	return func(st *model.State) { st.ApplyBatch(cp) }
+}
+
+// ExtraStep is an additional step kind injected by another engine.
+type ExtraStep struct {
+	Weight int
+	F      func(r *Run)
+}
+
+// RatchetHook is optionally implemented by a UnitHook.
+type RatchetHook interface {
+	RatchetIssue(from, to int)
+	RatchetAck(now int)
+}
+
+// Canon renders a state canonically: the combined-iteration position list.
+func Canon(st *model.State) string {
+	var sb strings.Builder
+	for _, p := range model.NewIter(st, model.IterOpts{KeyTypes: model.PointsAndRanges}).Scan() {
+		sb.WriteString(p.String())
+		sb.WriteByte('\n')
+	}
+	return sb.String()
+}
+
+// CanonFull is Canon without value truncation.
+func CanonFull(st *model.State) string {
+	var sb strings.Builder
+	for _, p := range model.NewIter(st, model.IterOpts{KeyTypes: model.PointsAndRanges}).Scan() {
+		writePos(&sb, p)
+	}
+	return sb.String()
+}
+
+func writePos(sb *strings.Builder, p model.Pos) {
+	fmt.Fprintf(sb, "%q", p.Key)
+	if p.HasPoint {
+		fmt.Fprintf(sb, "=%q", p.Value)
+	}
+	if p.HasRange {
+		fmt.Fprintf(sb, " [%q,%q)", p.RStart, p.REnd)
+		for _, k := range p.RKeys {
+			fmt.Fprintf(sb, "{%q:%q}", k.Suffix, k.Value)
+		}
+	}
+	sb.WriteByte('\n')
+}
+
+// ReadCanon scans a DB (or snapshot) with a combined iterator and renders what
+// it sees in the CanonFull format.
+func ReadCanon(newIter func(o *pebble.IterOptions) (*pebble.Iterator, error), o *pebble.IterOptions) (string, error) {
+	if o == nil {
+		o = &pebble.IterOptions{}
+	}
+	o.KeyTypes = pebble.IterKeyTypePointsAndRanges
+	it, err := newIter(o)
+	if err != nil {
+		return "", err
+	}
+	var sb strings.Builder
+	for ok := it.First(); ok; ok = it.Next() {
+		writePos(&sb, ReadPos(it))
+	}
+	err = it.Error()
+	if cerr := it.Close(); err == nil {
+		err = cerr
+	}
+	return sb.String(), err
+}
+
+// DB returns the run's current database.
+func (r *Run) DB() *pebble.DB { return r.db }
+
+// Opts returns the options the current DB was opened with.
+func (r *Run) Opts() *pebble.Options { return r.opts }
+
+// Rng returns the run's generator.
+func (r *Run) Rng() *rand.Rand { return r.rng }
+
+// Step returns the current step number.
+func (r *Run) Step() int { return r.step }
+
+// Failed reports whether a violation was recorded.
+func (r *Run) Failed() bool { return r.failed }
+
+// Fail records a violation from another engine.
+func (r *Run) Fail(class, format string, a ...any) { r.fail(class, format, a...) }
+
+// FailMatch records a violation with structured match fields.
+func (r *Run) FailMatch(class string, match map[string]any, format string, a ...any) {
+	detail := fmt.Sprintf(format, a...)
+	r.failed = true
+	h := r.hist
+	if len(h) > 400 {
+		h = h[len(h)-400:]
+	}
+	if match == nil {
+		match = map[string]any{}
+	}
+	match["class"] = class
+	r.R.Violate(class, fmt.Sprintf("[%s case %d step %d] %s", r.K.Name, r.Case, r.step, detail),
+		map[string]any{"knobs": r.K, "config": r.Cfg, "case": r.Case, "history_tail": h, "model_state": r.M.String()}, match)
+}
+
+// Log appends to the history log.
+func (r *Run) Log(format string, a ...any) { r.log(format, a...) }
+
+// Count adds to a run statistic.
+func (r *Run) Count(name string, n int64) { r.count(name, n) }
+
+// CrashRestart abandons the current DB (closing it on its own file system),
+// reopens on newFS and rebases the model on st. SingleDelete bookkeeping is
+// poisoned: keys written before the crash are never single-deleted.
+func (r *Run) CrashRestart(newFS vfs.FS, st *model.State) {
+	for _, io := range r.iters {
+		io.it.Close()
+	}
+	for _, s := range r.snaps {
+		s.s.Close()
+	}
+	for _, e := range r.efos {
+		e.s.Close()
+	}
+	for _, b := range r.bats {
+		b.b.Close()
+	}
+	r.iters, r.snaps, r.efos, r.bats = nil, nil, nil, nil
+	if r.db != nil {
+		r.db.Close()
+		r.db = nil
+	}
+	if r.fileCache != nil {
+		r.fileCache.Unref()
+		r.fileCache = nil
+	}
+	r.fs = newFS
+	r.M = st.Clone()
+	for _, k := range r.keyUniverse() {
+		r.w1set[k] = 2
+		r.w1mg[k] = true
+	}
+	r.seenTables = nil
+	r.opts = MakeOptions(r.Cfg, r.fs, r.Ev)
+	if r.OptsHook != nil {
+		r.OptsHook(r.opts)
+	}
+	r.attachFileCache()
+	r.opts.EnsureDefaults()
+	db, err := pebble.Open(r.Dir, r.opts)
+	if err != nil {
+		r.fail("reopen-error", "Open after crash: %v", err)
+		return
+	}
+	r.db = db
+	r.Cfg.FMV = int(db.FormatMajorVersion())
+}
+
 // Run is one history.
 type Run struct {
 	R     *vcommon.Report
@@ -277,7 +470,9 @@ type Run struct {
 	Cfg   Config
 	Case  int
 	rng   *rand.Rand
-	fs    *vfs.MemFS
+	fs    vfs.FS
+	Hook  UnitHook // optional observer of unit issue/ack (crash and fault engines)
+	Dir   string
 	db    *pebble.DB
 	opts  *pebble.Options
 	Ev    *Events
@@ -298,6 +493,10 @@ type Run struct {
 	nontrivial bool
 	sawShadow  bool
 	ingestN int
+	OptsHook func(o *pebble.Options)
+	NoSyncWrites bool
+	Extra    []ExtraStep // additional weighted steps supplied by other engines
+	NoFinalClose bool
 	fileCache *pebble.FileCache
 	seenTables map[uint64]bool
 	Stats map[string]int64
@@ -556,7 +755,7 @@ func ApplyOp(w writer, o model.Op, wo *pebble.WriteOptions) error {
 }
 
 func (r *Run) writeOpts() *pebble.WriteOptions {
-	if r.Cfg.DisableWAL || r.rng.IntN(3) != 0 {
+	if r.Cfg.DisableWAL || r.NoSyncWrites || r.rng.IntN(3) != 0 {
 		return pebble.NoSync
 	}
 	return pebble.Sync
